@@ -136,6 +136,34 @@ func check(c Case, r *ev.Rec) error {
 			return fmt.Errorf("constructed and parsed Destination with equal bytes are not Equals")
 		}
 	}
+	// the same identity obtained from differently framed buffers (standalone, followed by
+	// other data, embedded in a RouterInfo) is equal to itself
+	framed := append(append([]byte{}, encA...), model.Fill(40, c.A.PadSeed^7)...)
+	dF, _, err := destination.ReadDestination(framed)
+	if err != nil {
+		return fmt.Errorf("ReadDestination(identity ++ 40 bytes): %v", err)
+	}
+	if !dA.Equals(&dF) || !dF.Equals(dA) {
+		return fmt.Errorf("Destination.Equals is false for the same identity bytes parsed from a longer buffer")
+	}
+	if hF, _ := dF.Hash(); hF != sha256.Sum256(encA) {
+		return fmt.Errorf("Destination.Hash() depends on what follows the identity in the buffer")
+	}
+	if routerOK {
+		rF, _, err := router_identity.ReadRouterIdentity(framed)
+		if err != nil {
+			return fmt.Errorf("ReadRouterIdentity(identity ++ 40 bytes): %v", err)
+		}
+		mri := model.RouterInfo{Ident: idA, Published: 1700000000000, Sig: model.Fill(model.SigLen[idA.SigType], 3)}
+		info, _, err := router_info.ReadRouterInfo(mri.Encode())
+		if err != nil {
+			return fmt.Errorf("ReadRouterInfo: %v", err)
+		}
+		rI := info.RouterIdentity()
+		if !rA.Equal(rF) || !rF.Equal(rA) || !rA.Equal(rI) || !rI.Equal(rA) || !rF.Equal(rI) {
+			return fmt.Errorf("RouterIdentity.Equal is false for the same identity bytes parsed standalone / from a longer buffer / from a RouterInfo")
+		}
+	}
 	// B
 	var encB []byte
 	var idB model.Ident
